@@ -41,6 +41,7 @@ class Binder:
     loop: ast.AST | None = None  # For statement / comprehension it came from (possibly inside a generator helper)
     root: bool = False
     site: ast.AST | None = None  # the call in the analysed function through which a helper's loop is run
+    via: tuple = ()  # ids of the loops whose elements this binder stands for after sources were composed
 
     @property
     def names(self) -> list[str]:
@@ -59,6 +60,7 @@ class Contribution:
     how: str = ""  # append, add, comp, subscript-store, subscript-load (d[k].append), setdefault, literal, root, ...
     acc: str = ""  # accumulator the event changes (events only)
     nlocal: int = -1  # how many of the (trailing) conds guard the event itself; the leading ones filter composed sources
+    ren: dict = field(default_factory=dict)  # loop variables of the function that were renamed while sources were composed
 
     def __post_init__(self) -> None:
         if self.nlocal < 0:
@@ -224,6 +226,24 @@ class Collections:
             if isinstance(n, ast.Call) and isinstance(n.func, ast.Attribute):
                 m = n.func.attr
                 recv = n.func.value
+                if (m in ADD_ONE or m in ADD_MANY or m in REMOVE) and isinstance(recv, ast.IfExp):
+                    # (a if c else b).append(x): an event on a under c and on b under not c
+                    def arms(v, cs):
+                        if isinstance(v, ast.Name):
+                            return [(v.id, cs)]
+                        if isinstance(v, ast.IfExp):
+                            x_, y_ = arms(v.body, cs + [(v.test, True)]), arms(v.orelse, cs + [(v.test, False)])
+                            return x_ + y_ if x_ is not None and y_ is not None else None
+                        return None
+
+                    for real, cs in arms(recv, []) or []:
+                        if m in ADD_ONE and len(n.args) > ADD_ONE[m]:
+                            ev.setdefault(real, []).append(("add", m, n, n.args[ADD_ONE[m]], None, cs))
+                        elif m in ADD_MANY and n.args:
+                            ev.setdefault(real, []).append(("addmany", m, n, n.args[0], None, cs))
+                        elif m in REMOVE:
+                            ev.setdefault(real, []).append(("remove", m, n, n.args[0] if n.args else None, None, cs))
+                    continue
                 if m in ADD_ONE or m in ADD_MANY or m in REMOVE or m == "setdefault":
                     if isinstance(recv, ast.Name):
                         if m in ADD_ONE and len(n.args) > ADD_ONE[m]:
@@ -449,6 +469,12 @@ class Collections:
                 return self._describe(e.args[1], depth - 1, busy)
             if isinstance(e.func, ast.Attribute) and e.func.attr == "fromkeys" and isinstance(e.func.value, ast.Name) and e.func.value.id in ("dict", "OrderedDict") and len(e.args) == 1:
                 return self._describe(e.args[0], depth - 1, busy)  # order-preserving removal of duplicates
+            if isinstance(e.func, ast.Attribute) and e.func.attr == "fromkeys" and isinstance(e.func.value, ast.Name) and e.func.value.id in ("dict", "OrderedDict", "defaultdict") and len(e.args) == 2 and isinstance(e.args[1], ast.Constant):
+                sub = self._describe(e.args[0], depth - 1, busy)
+                for c in sub.contribs:
+                    if c.value is None:
+                        c.value = e.args[1]
+                return sub
             if n == "dict" and len(e.args) == 1 and not e.keywords:
                 sub = self._describe(e.args[0], depth - 1, busy)
                 out = Desc(unknown=sub.unknown, removals=sub.removals)
@@ -738,13 +764,23 @@ class Collections:
             if sub is None or sub.unknown or sub.removals or not sub.contribs or any(x.how == "root" for x in sub.contribs):
                 continue
             rest = lits[:i] + lits[i + 1:]
-            have = {id(b.loop) for b in c.binders if b.loop is not None}
+            have = {id(b.loop) for b in c.binders if b.loop is not None} | {v for b in c.binders for v in b.via}
             if all(x.binders and all(id(b.loop) in have for b in x.binders) for x in sub.contribs):
                 # the contribution already ranges over the elements of this very collection: non-emptiness is implied
-                return self._exists(Contribution(c.elt, c.value, c.binders, rest, c.context, c.node, c.kind, c.how, c.acc), out)
+                return self._exists(Contribution(c.elt, c.value, c.binders, rest, c.context, c.node, c.kind, c.how, c.acc, -1, dict(c.ren)), out)
             res = []
+            env = {k: ast.Name(id=v, ctx=ast.Load()) for k, v in c.ren.items()}
+
+            def rn(e_):
+                # the literal was written where the function's own loop variables were in scope; this contribution knows
+                # some of them under the names they got when sources were composed
+                if e_ is None or not env or not any(isinstance(n_, ast.Name) and n_.id in env for n_ in ast.walk(e_)):
+                    return e_
+                return substitute(copy_node(e_, self.fi), env)
+
             for x in sub.contribs:
-                nc = Contribution(c.elt, c.value, c.binders + x.binders, rest + x.conds, c.context, c.node, c.kind, c.how, c.acc)
+                xb = [Binder(b.target, rn(b.source) if not (parent(b.source) is not None) or any(isinstance(n_, ast.Name) and n_.id in env for n_ in ast.walk(b.source)) else b.source, b.loop, b.root, b.site) for b in x.binders]
+                nc = Contribution(c.elt, c.value, c.binders + xb, rest + [(rn(e_), p_) for e_, p_ in x.conds], c.context, c.node, c.kind, c.how, c.acc, -1, dict(c.ren))
                 res += self._exists(nc, out)
             return res
         return [c]
@@ -779,15 +815,15 @@ class Collections:
                 ds = self.fn.reaching(src.id, src)
                 if len(ds) == 1 and ds[0].kind == "assign" and isinstance(ds[0].value, ast.Call) and src.id not in self.fn.mutated and (_call_name(ds[0].value) in ("product", "enumerate") or self.fn.lib_name(ds[0].value.func) == "itertools.product"):
                     src = ds[0].value
-                    b = Binder(b.target, src, b.loop, b.root, b.site)
+                    b = Binder(b.target, src, b.loop, b.root, b.site, b.via)
                     c.binders[idx] = b
             # wrappers around the source
             if isinstance(src, ast.Call) and _call_name(src) in COPY_CALLS and len(src.args) == 1:
-                c.binders[idx] = Binder(b.target, src.args[0], b.loop, False, b.site)
+                c.binders[idx] = Binder(b.target, src.args[0], b.loop, False, b.site, b.via)
                 work.insert(0, c)
                 continue
             if isinstance(src, ast.Call) and (_call_name(src) == "product" or self.fn.lib_name(src.func) == "itertools.product") and isinstance(b.target, (ast.Tuple, ast.List)) and len(b.target.elts) == len(src.args) and not src.keywords:
-                c.binders[idx: idx + 1] = [Binder(t, s, b.loop, False, b.site) for t, s in zip(b.target.elts, src.args)]
+                c.binders[idx: idx + 1] = [Binder(t, s, b.loop, False, b.site, b.via) for t, s in zip(b.target.elts, src.args)]
                 work.insert(0, c)
                 continue
             if isinstance(src, ast.Call) and (_call_name(src) == "product" or self.fn.lib_name(src.func) == "itertools.product") and isinstance(b.target, ast.Name) and src.args and not src.keywords and not any(isinstance(x, ast.Starred) for x in src.args):
@@ -801,26 +837,45 @@ class Collections:
 
                 nb = [Binder(ast.Name(id=n_, ctx=ast.Store()), s_, b.loop, False, b.site) for n_, s_ in zip(names, src.args)]
                 later = [Binder(bb.target, sbp(bb.source) if any(isinstance(x, ast.Name) and x.id in env for x in ast.walk(bb.source)) else bb.source, bb.loop, bb.root, bb.site) for bb in c.binders[idx + 1:]]
-                nc = Contribution(sbp(c.elt), sbp(c.value), c.binders[:idx] + nb + later, [(sbp(x), p_) for x, p_ in c.conds], c.context, c.node, c.kind, c.how, c.acc, c.nlocal)
+                nc = Contribution(sbp(c.elt), sbp(c.value), c.binders[:idx] + nb + later, [(sbp(x), p_) for x, p_ in c.conds], c.context, c.node, c.kind, c.how, c.acc, c.nlocal, dict(c.ren))
                 work.insert(0, nc)
                 continue
             if isinstance(src, ast.Call) and _call_name(src) == "enumerate" and isinstance(b.target, (ast.Tuple, ast.List)) and len(b.target.elts) == 2 and src.args:
-                c.binders[idx] = Binder(b.target.elts[1], src.args[0], b.loop, False, b.site)
+                c.binders[idx] = Binder(b.target.elts[1], src.args[0], b.loop, False, b.site, b.via)
                 work.insert(0, c)
                 continue
             sub = self._describe_copy(src)
+            if c.ren:
+                # the source was built where the function's own loop variables were in scope; this contribution already knows
+                # some of them under fresh names
+                for ci in sub.contribs:
+                    own = {n_ for ib in ci.binders for n_ in ib.names}
+                    env_r = {k: ast.Name(id=v, ctx=ast.Load()) for k, v in c.ren.items() if k not in own}
+                    if not env_r or ci.how == "root":
+                        continue
+
+                    def rn(e_, env_r=env_r):
+                        if e_ is None or not any(isinstance(n_, ast.Name) and n_.id in env_r for n_ in ast.walk(e_)):
+                            return e_
+                        return substitute(copy_node(e_, self.fi), env_r)
+
+                    ci.elt, ci.value = rn(ci.elt), rn(ci.value)
+                    ci.conds = [(rn(e_), p_) for e_, p_ in ci.conds]
+                    for ib in ci.binders:
+                        if any(isinstance(n_, ast.Name) and n_.id in env_r for n_ in ast.walk(ib.source)):
+                            ib.source = rn(ib.source)
             if sub.unknown or sub.removals:
                 out.unknown += sub.unknown
                 out.removals += sub.removals
             if len(sub.contribs) == 1 and sub.contribs[0].how == "root":
                 # the source is a root itself
-                c.binders[idx] = Binder(b.target, sub.contribs[0].binders[0].source, b.loop, True, b.site)
+                c.binders[idx] = Binder(b.target, sub.contribs[0].binders[0].source, b.loop, True, b.site, b.via)
                 work.insert(0, c)
                 continue
             for ci in sub.contribs:
                 if ci.how == "root":
                     rb = ci.binders[0]
-                    nc = Contribution(c.elt, c.value, c.binders[:idx] + [Binder(b.target, rb.source, b.loop, True, b.site)] + c.binders[idx + 1:], list(c.conds), c.context, c.node, c.kind, c.how, c.acc, c.nlocal)
+                    nc = Contribution(c.elt, c.value, c.binders[:idx] + [Binder(b.target, rb.source, b.loop, True, b.site, b.via)] + c.binders[idx + 1:], list(c.conds), c.context, c.node, c.kind, c.how, c.acc, c.nlocal, dict(c.ren))
                     work.insert(0, nc)
                     continue
                 env = self._match_target(b.target, ci)
@@ -837,7 +892,7 @@ class Collections:
                             fresh = f"{nm.id.split('__')[0]}__b{next(_fresh)}"
                             ren[nm.id] = ast.Name(id=fresh, ctx=ast.Load())
                             nm.id = fresh
-                    inner_binders.append(Binder(tnew, ib.source, ib.loop, ib.root, ib.site or b.site))
+                    inner_binders.append(Binder(tnew, ib.source, ib.loop, ib.root, ib.site or b.site, ib.via + b.via + ((id(b.loop),) if b.loop is not None else ())))
                 # sources of later inner binders may mention earlier inner binder names
                 for k, ib in enumerate(inner_binders):
                     if k and any(isinstance(x, ast.Name) and x.id in ren for x in ast.walk(ib.source)):
@@ -848,10 +903,11 @@ class Collections:
                 def sb(x):
                     return substitute(copy_node(x, self.fi), env) if x is not None else None
 
+                nc_ren = {**c.ren, **ci.ren, **{k: v.id for k, v in ren.items()}}
                 nc = Contribution(
                     sb(c.elt),
                     sb(c.value),
-                    c.binders[:idx] + inner_binders + [Binder(bb.target, sb(bb.source) if not bb.root else bb.source, bb.loop, bb.root, bb.site) for bb in c.binders[idx + 1:]],
+                    c.binders[:idx] + inner_binders + [Binder(bb.target, sb(bb.source) if not bb.root else bb.source, bb.loop, bb.root, bb.site, bb.via) for bb in c.binders[idx + 1:]],
                     inner_conds + [(sb(x), p) for x, p in c.conds],
                     c.context,
                     c.node,
@@ -859,6 +915,7 @@ class Collections:
                     c.how,
                     c.acc,
                     c.nlocal,
+                    nc_ren,
                 )
                 work.insert(0, nc)
 
